@@ -157,6 +157,7 @@ let run_c03 oc (hints : string list) =
       | "zstd" -> let k = word t in Hashtbl.replace ztab k (tbytes t)
       | _ -> ()) hints;
   let zstd (b : n list) = Hashtbl.find_opt ztab (hex_of_bytes b) in
+  if !files = [] then output_string oc "nofiles\n";
   let seen = ref [] in
   List.iter (fun (comp, bytes) ->
     List.iter (fun (rname, rd) ->
